@@ -16,7 +16,7 @@ from sa.cfg import CFG, forward, guards, witness_path
 from sa.intervals import DOMAIN, Evaluator, fmt
 from sa.model import AnalysisError, Function, Module, Repo, calls_in, const_str, dotted, norm, own_nodes
 from sa.match import Locals
-from sa.report import Report
+from sa.report import Report, with_flatten_fallback
 from sa.templates import template_of
 
 NON2XX = {c for c in DOMAIN if not 200 <= c <= 299}
@@ -62,8 +62,10 @@ def _subclasses(mod: Module) -> Dict[str, Set[str]]:
     return out
 
 
-def _transport_var_for(resp: str):
+def _transport_var_for(resp: str, L=None):
     def f(e: ast.AST) -> Optional[str]:
+        if L is not None and isinstance(e, ast.Name):
+            e = L.inline(e)  # a local holding <response>.status_code
         d = dotted(e)
         if d == f"{resp}.status_code":
             return "int"
@@ -89,84 +91,87 @@ def run(repo: Repo, rep: Report, tier: str) -> None:
             else:
                 rep.violation("R6.2", f"{exc_mod.relpath}:{c}", f"hierarchy|{c}", f"{c} is not a subclass of {base}", exc_mod.relpath)
 
-    # ---------------------------------------------------------------- R6.1 / R6.2 transport
-    tr = repo.func("core.http_transport:HttpxTransport.request")
-    cfg = CFG(tr.node)
-    dom = cfg.dominators()
-    raises = [n for n in cfg.nodes if isinstance(n.ast, ast.Raise) and not n.copy]
-    rep.require(bool(raises), "R6.1: HttpxTransport.request has no raise statement (anchor vanished)")
-    raised_for: Dict[int, str] = {}
-    returns = [n for n in cfg.nodes if isinstance(n.ast, ast.Return)]
-    # per status code, walk the CFG after the send call deciding every test by evaluation
-    send_nodes = [n for n in cfg.nodes if n.ast is not None and n.kind == "stmt" and any(
-        isinstance(c.func, ast.Attribute) and c.func.attr == "request" and "_client" in norm(c.func.value) for c in calls_in(n.ast))]
-    rep.require(len(send_nodes) == 1, f"R6.1: expected one send call in HttpxTransport.request, found {len(send_nodes)}")
-    resp_var = "response"
-    if send_nodes and isinstance(send_nodes[0].ast, (ast.Assign, ast.AnnAssign)):
-        tg = send_nodes[0].ast.targets[0] if isinstance(send_nodes[0].ast, ast.Assign) else send_nodes[0].ast.target
-        if isinstance(tg, ast.Name):
-            resp_var = tg.id
-    ev = Evaluator(_transport_var_for(resp_var), helpers)
-    outcome: Dict[int, Tuple[str, str]] = {}
-    undecided: List[str] = []
-    if send_nodes:
-        for code in DOMAIN:
-            outcome[code] = _simulate(cfg, send_nodes[0].id, code, ev, undecided)
-    if undecided:
-        rep.error(f"R6.1: transport control flow depends on predicates the evaluator cannot decide: {sorted(set(undecided))[:3]}")
-    ret_codes = {c for c, (k, _) in outcome.items() if k == "return"}
-    raise_codes = {c for c, (k, _) in outcome.items() if k == "raise"}
-    sub = f"{tr.module.relpath}:HttpxTransport.request status guard"
-    loc = tr.loc(raises[0].ast) if raises else tr.loc()
-    leak = ret_codes & NON2XX
-    if leak:
-        rep.violation("R6.1", sub, f"{tr.fq}|returns-non2xx|{fmt(leak)}",
-                      f"the bundled transport returns the response instead of raising for statuses {fmt(leak)}", loc)
-    else:
-        rep.ok("R6.1", sub, f"raises for {fmt(raise_codes)}; returns only for {fmt(ret_codes)}", loc)
-    over = raise_codes & set(range(200, 300))
-    if over:
-        rep.violation("R6.1", sub + " (2xx)", f"{tr.fq}|raises-2xx|{fmt(over)}", f"the transport raises for success statuses {fmt(over)}", loc)
-    else:
-        rep.ok("R6.1", sub + " (2xx)", "no 2xx status raises", loc)
-    # class correctness
-    bad4 = {c for c in raise_codes if 400 <= c <= 499 and "ClientError" not in subs.get(outcome[c][1], set())}
-    bad5 = {c for c in raise_codes if 500 <= c <= 599 and "ServerError" not in subs.get(outcome[c][1], set())}
-    badh = {c for c in raise_codes if "HTTPError" not in subs.get(outcome[c][1], set())}
-    classes = sorted({outcome[c][1] for c in raise_codes})
-    sub2 = f"{tr.module.relpath}:HttpxTransport.request raised class"
-    if badh:
-        rep.violation("R6.2", sub2, f"{tr.fq}|not-httperror|{fmt(badh)}", f"for {fmt(badh)} the raised object is not an HTTPError ({classes})", loc)
-    if bad4:
-        rep.violation("R6.2", sub2 + " 4xx", f"{tr.fq}|4xx-class|{sorted({outcome[c][1] for c in bad4})}",
-                      f"statuses {fmt(bad4)} raise {sorted({outcome[c][1] for c in bad4})}, not a ClientError: `except ClientError` never fires", loc)
-    else:
-        rep.ok("R6.2", sub2 + " 4xx", f"400..499 raise {sorted({outcome[c][1] for c in raise_codes if 400 <= c <= 499})}", loc)
-    if bad5:
-        rep.violation("R6.2", sub2 + " 5xx", f"{tr.fq}|5xx-class|{sorted({outcome[c][1] for c in bad5})}",
-                      f"statuses {fmt(bad5)} raise {sorted({outcome[c][1] for c in bad5})}, not a ServerError: `except ServerError` never fires", loc)
-    else:
-        rep.ok("R6.2", sub2 + " 5xx", f"500..599 raise {sorted({outcome[c][1] for c in raise_codes if 500 <= c <= 599})}", loc)
-    # the raise carries status and response
-    for r in raises:
-        call = r.ast.exc if isinstance(r.ast.exc, ast.Call) else None  # type: ignore[union-attr]
-        kws = {k.arg: norm(k.value) for k in call.keywords} if call else {}
-        # building the error must not be able to fail with something else: arguments are plain reads of the response, no decoding / parsing
-        TL = Locals(tr.node)
-        risky = [x for a in (list(call.args) + [k.value for k in call.keywords] if call else []) for x in ast.walk(TL.inline(a))
-                 if isinstance(x, ast.Call) and not (isinstance(x.func, ast.Name) and x.func.id in ("str", "repr", "int"))
-                 and not any(k.arg == "errors" for k in x.keywords)]
-        if risky:
-            rep.violation("R6.5", f"{tr.module.relpath}:HttpxTransport.request raise args are total", f"{tr.fq}|raise-arg-can-fail|{norm(risky[0].func)[-30:]}",
-                          f"`{norm(risky[0])[:60]}` is evaluated while the error is being built: if it raises (e.g. a body that is not valid UTF-8 / JSON) the "
-                          "caller gets that exception instead of an HTTPError carrying status and response", tr.loc(r.ast))
-        elif call is not None:
-            rep.ok("R6.5", f"{tr.module.relpath}:HttpxTransport.request raise args are total", "the error is built from plain attribute reads of the response", tr.loc(r.ast))
-        if kws.get("status_code") == f"{resp_var}.status_code" and kws.get("response") == resp_var:
-            rep.ok("R6.5", f"{tr.module.relpath}:HttpxTransport.request raise args", "status_code=response.status_code, response=response", tr.loc(r.ast))
+    def _transport_rules(tr: Function, rep) -> None:
+        # ---------------------------------------------------------------- R6.1 / R6.2 transport
+        cfg = CFG(tr.node)
+        dom = cfg.dominators()
+        raises = [n for n in cfg.nodes if isinstance(n.ast, ast.Raise) and not n.copy]
+        rep.require(bool(raises), "R6.1: HttpxTransport.request has no raise statement (anchor vanished)")
+        raised_for: Dict[int, str] = {}
+        returns = [n for n in cfg.nodes if isinstance(n.ast, ast.Return)]
+        # per status code, walk the CFG after the send call deciding every test by evaluation
+        send_nodes = [n for n in cfg.nodes if n.ast is not None and n.kind == "stmt" and any(
+            isinstance(c.func, ast.Attribute) and c.func.attr == "request" and "_client" in norm(c.func.value) for c in calls_in(n.ast))]
+        rep.require(len(send_nodes) == 1, f"R6.1: expected one send call in HttpxTransport.request, found {len(send_nodes)}")
+        resp_var = "response"
+        if send_nodes and isinstance(send_nodes[0].ast, (ast.Assign, ast.AnnAssign)):
+            tg = send_nodes[0].ast.targets[0] if isinstance(send_nodes[0].ast, ast.Assign) else send_nodes[0].ast.target
+            if isinstance(tg, ast.Name):
+                resp_var = tg.id
+        ev = Evaluator(_transport_var_for(resp_var, Locals(tr.node)), helpers)
+        outcome: Dict[int, Tuple[str, str]] = {}
+        undecided: List[str] = []
+        if send_nodes:
+            for code in DOMAIN:
+                outcome[code] = _simulate(cfg, send_nodes[0].id, code, ev, undecided)
+        if undecided:
+            rep.error(f"R6.1: transport control flow depends on predicates the evaluator cannot decide: {sorted(set(undecided))[:3]}")
+        ret_codes = {c for c, (k, _) in outcome.items() if k == "return"}
+        raise_codes = {c for c, (k, _) in outcome.items() if k == "raise"}
+        sub = f"{tr.module.relpath}:HttpxTransport.request status guard"
+        loc = tr.loc(raises[0].ast) if raises else tr.loc()
+        leak = ret_codes & NON2XX
+        if leak:
+            rep.violation("R6.1", sub, f"{tr.fq}|returns-non2xx|{fmt(leak)}",
+                          f"the bundled transport returns the response instead of raising for statuses {fmt(leak)}", loc)
         else:
-            rep.violation("R6.5", f"{tr.module.relpath}:HttpxTransport.request raise args", f"{tr.fq}|raise-args|{norm(r.ast)}",
-                          f"`{norm(r.ast)}` does not pass the status code and the response to the error", tr.loc(r.ast))
+            rep.ok("R6.1", sub, f"raises for {fmt(raise_codes)}; returns only for {fmt(ret_codes)}", loc)
+        over = raise_codes & set(range(200, 300))
+        if over:
+            rep.violation("R6.1", sub + " (2xx)", f"{tr.fq}|raises-2xx|{fmt(over)}", f"the transport raises for success statuses {fmt(over)}", loc)
+        else:
+            rep.ok("R6.1", sub + " (2xx)", "no 2xx status raises", loc)
+        # class correctness
+        bad4 = {c for c in raise_codes if 400 <= c <= 499 and "ClientError" not in subs.get(outcome[c][1], set())}
+        bad5 = {c for c in raise_codes if 500 <= c <= 599 and "ServerError" not in subs.get(outcome[c][1], set())}
+        badh = {c for c in raise_codes if "HTTPError" not in subs.get(outcome[c][1], set())}
+        classes = sorted({outcome[c][1] for c in raise_codes})
+        sub2 = f"{tr.module.relpath}:HttpxTransport.request raised class"
+        if badh:
+            rep.violation("R6.2", sub2, f"{tr.fq}|not-httperror|{fmt(badh)}", f"for {fmt(badh)} the raised object is not an HTTPError ({classes})", loc)
+        if bad4:
+            rep.violation("R6.2", sub2 + " 4xx", f"{tr.fq}|4xx-class|{sorted({outcome[c][1] for c in bad4})}",
+                          f"statuses {fmt(bad4)} raise {sorted({outcome[c][1] for c in bad4})}, not a ClientError: `except ClientError` never fires", loc)
+        else:
+            rep.ok("R6.2", sub2 + " 4xx", f"400..499 raise {sorted({outcome[c][1] for c in raise_codes if 400 <= c <= 499})}", loc)
+        if bad5:
+            rep.violation("R6.2", sub2 + " 5xx", f"{tr.fq}|5xx-class|{sorted({outcome[c][1] for c in bad5})}",
+                          f"statuses {fmt(bad5)} raise {sorted({outcome[c][1] for c in bad5})}, not a ServerError: `except ServerError` never fires", loc)
+        else:
+            rep.ok("R6.2", sub2 + " 5xx", f"500..599 raise {sorted({outcome[c][1] for c in raise_codes if 500 <= c <= 599})}", loc)
+        # the raise carries status and response
+        for r in raises:
+            call = r.ast.exc if isinstance(r.ast.exc, ast.Call) else None  # type: ignore[union-attr]
+            kws = {k.arg: norm(Locals(tr.node).inline(k.value)) for k in call.keywords} if call else {}
+            # building the error must not be able to fail with something else: arguments are plain reads of the response, no decoding / parsing
+            TL = Locals(tr.node)
+            risky = [x for a in (list(call.args) + [k.value for k in call.keywords] if call else []) for x in ast.walk(TL.inline(a))
+                     if isinstance(x, ast.Call) and not (isinstance(x.func, ast.Name) and x.func.id in ("str", "repr", "int"))
+                     and not any(k.arg == "errors" for k in x.keywords)]
+            if risky:
+                rep.violation("R6.5", f"{tr.module.relpath}:HttpxTransport.request raise args are total", f"{tr.fq}|raise-arg-can-fail|{norm(risky[0].func)[-30:]}",
+                              f"`{norm(risky[0])[:60]}` is evaluated while the error is being built: if it raises (e.g. a body that is not valid UTF-8 / JSON) the "
+                              "caller gets that exception instead of an HTTPError carrying status and response", tr.loc(r.ast))
+            elif call is not None:
+                rep.ok("R6.5", f"{tr.module.relpath}:HttpxTransport.request raise args are total", "the error is built from plain attribute reads of the response", tr.loc(r.ast))
+            if kws.get("status_code") == f"{resp_var}.status_code" and kws.get("response") == resp_var:
+                rep.ok("R6.5", f"{tr.module.relpath}:HttpxTransport.request raise args", "status_code=response.status_code, response=response", tr.loc(r.ast))
+            else:
+                rep.violation("R6.5", f"{tr.module.relpath}:HttpxTransport.request raise args", f"{tr.fq}|raise-args|{norm(r.ast)}",
+                              f"`{norm(r.ast)}` does not pass the status code and the response to the error", tr.loc(r.ast))
+
+
+    with_flatten_fallback(rep, repo.func("core.http_transport:HttpxTransport.request"), _transport_rules)
 
     # ---------------------------------------------------------------- R6.5 HTTPError.__init__
     he = exc_mod.classes["HTTPError"].methods.get("__init__")
@@ -184,7 +189,13 @@ def run(repo: Repo, rep: Report, tier: str) -> None:
     D_sets: Dict[str, Set[int]] = {}
     for spec in ("visit.exception_visitor:ExceptionVisitor.visit", "emitters.exceptions_emitter:ExceptionsEmitter._generate_for_codes"):
         fn = repo.func(spec)
-        D_sets[spec] = _alias_generator_rules(fn, helpers, rep)
+        _res: Dict[str, Set[int]] = {}
+
+        def _alias_body(f: Function, r, _spec=spec, _res=_res) -> None:
+            _res["D"] = _alias_generator_rules(f, helpers, r)
+
+        with_flatten_fallback(rep, fn, _alias_body)
+        D_sets[spec] = _res.get("D", set())
     # ---------------------------------------------------------------- R6.6 the alias classes a client raises stay importable when the core is shared
     # (the shared-core predicate of C11: a client that is wrongly judged "not shared" never enters the registry and loses its
     #  exception classes when the next client is generated - its operations can then no longer raise the package's error classes)
@@ -194,7 +205,13 @@ def run(repo: Repo, rep: Report, tier: str) -> None:
 
     # ---------------------------------------------------------------- R6.3 + agreement
     gen = repo.func("visit.endpoint.generators.response_handler_generator:EndpointResponseHandlerGenerator.generate_response_handling")
-    E = _dispatch_rules(gen, helpers, rep, consts)
+    _eres: Dict[str, Set[int]] = {}
+
+    def _dispatch_body(f: Function, r) -> None:
+        _eres["E"] = _dispatch_rules(f, helpers, r, consts)
+
+    with_flatten_fallback(rep, gen, _dispatch_body)
+    E = _eres.get("E", set())
     for spec, D in D_sets.items():
         fn = repo.func(spec)
         sub = f"alias agreement: handler raises aliases for {fmt(E)} / {fn.qualname} defines {fmt(D)}"
@@ -271,20 +288,30 @@ def _alias_generator_rules(fn: Function, helpers: Dict[str, ast.AST], rep: Repor
     code_vars |= {a.arg for a in fn.node.args.args if a.annotation is not None and norm(a.annotation) == "int"}  # type: ignore[attr-defined]
     ev = Evaluator(lambda e: "int" if isinstance(e, ast.Name) and e.id in code_vars else None, helpers)
     # the base-class variable: the one that is assigned the names of the error base classes
+    BASES = ("ClientError", "ServerError")
+
+    def _alts(v: ast.AST, conds: List[Tuple[ast.AST, bool]]) -> List[Tuple[str, List[Tuple[ast.AST, bool]]]]:
+        """constant base names a value can take, each with the conditional-expression tests that select it"""
+        if const_str(v) is not None:
+            return [(const_str(v) or "", conds)]
+        if isinstance(v, ast.IfExp):
+            return _alts(v.body, conds + [(v.test, True)]) + _alts(v.orelse, conds + [(v.test, False)])
+        return []
+
     base_vars = {nd.targets[0].id for nd in own_nodes(fn.node) if isinstance(nd, ast.Assign) and isinstance(nd.targets[0], ast.Name)
-                 and const_str(nd.value) in ("ClientError", "ServerError")}
+                 and any(b in BASES for b, _ in _alts(nd.value, []))}
     cfg = CFG(fn.node)
     dom = cfg.dominators()
     sub0 = f"{fn.module.relpath}:{fn.qualname}"
     base_sets: Dict[str, Set[int]] = {}
     n_assign = 0
     for nd in cfg.nodes:
-        if isinstance(nd.ast, ast.Assign) and isinstance(nd.ast.targets[0], ast.Name) and nd.ast.targets[0].id in base_vars:
-            val = const_str(nd.ast.value)
-            if val is None:
-                continue
+        if not (isinstance(nd.ast, ast.Assign) and isinstance(nd.ast.targets[0], ast.Name) and nd.ast.targets[0].id in base_vars):
+            continue
+        for val, extra in _alts(nd.ast.value, []):
             n_assign += 1
             gs = [(g, p) for g, p in guards(cfg, nd.id, dom) if g.kind == "test" and any(isinstance(x, ast.Name) and x.id in code_vars for x in ast.walk(g.ast))]
+            gs = [(type("G", (), {"ast": t, "kind": "test"})(), pol) for t, pol in extra] + gs
             codes = set(DOMAIN)
             for g, pol in gs:
                 if pol is None:
